@@ -4,12 +4,25 @@
 
 package tracker
 
+//@ -- ------------------------------------------------------------------------------------------
+//@ -- Inflights: ring buffer of (index, bytes); logical queue q[0..count) with q[j] = buffer[ring(start, j, size)]
+
+//@ spec ring(a int, j int, size int) int := a + j >= size ? a + j - size : a + j
+
 //@ pred wf_inflights(in *Inflights) := in != nil && in.size >= 1 && 0 <= in.count && in.count <= in.size && 0 <= in.start
 //@     && in.start < in.size && len(in.buffer) <= in.size
 //@     && (len(in.buffer) < in.size ==> in.start + in.count <= len(in.buffer))
 //@     && (in.count > 0 ==> in.start < len(in.buffer))
 
+//@ spec qidx(in *Inflights, j int) uint64 := in.buffer[ring(in.start, j, in.size)].index
+//@ spec qbytes(in *Inflights, j int) uint64 := in.buffer[ring(in.start, j, in.size)].bytes
+
 //@ pred fullSpec(in *Inflights) := in.count == in.size || (in.maxBytes != 0 && in.bytes >= in.maxBytes)
+
+//@ func tracker.NewInflights [C16]
+//@   requires size >= 1
+//@   ensures #fresh fresh(result) && wf_inflights(result) && result.count == 0 && result.bytes == 0
+//@   ensures #limits result.size == size && result.maxBytes == maxBytes
 
 //@ func tracker.Inflights.Full [C16]
 //@   pure
@@ -25,3 +38,38 @@ package tracker
 //@   requires wf_inflights(in)
 //@   ensures #emptied in.count == 0 && in.bytes == 0 && in.start == 0 && wf_inflights(in)
 //@   ensures #frame in.size == old(in.size) && in.maxBytes == old(in.maxBytes)
+
+//@ func tracker.Inflights.grow [C16]
+//@   requires wf_inflights(in) && len(in.buffer) < in.size
+//@   ensures #bigger len(in.buffer) > old(len(in.buffer)) && len(in.buffer) <= in.size
+//@   ensures #kept forall j int :: 0 <= j && j < old(len(in.buffer)) ==>
+//@             in.buffer[j].index == old(in.buffer[j].index) && in.buffer[j].bytes == old(in.buffer[j].bytes)
+//@   ensures #frame in.size == old(in.size) && in.maxBytes == old(in.maxBytes) && in.count == old(in.count)
+//@             && in.start == old(in.start) && in.bytes == old(in.bytes)
+
+//@ func tracker.Inflights.Add [C16]
+//@   requires #wf wf_inflights(in)
+//@   requires #not-full [C16 C14] !fullSpec(in)
+//@   ensures #wf wf_inflights(in)
+//@   ensures #enqueued [C16] in.count == old(in.count) + 1 && in.start == old(in.start)
+//@             && qidx(in, old(in.count)) == index && qbytes(in, old(in.count)) == bytes
+//@   ensures #queue-kept [C16] forall j int :: 0 <= j && j < old(in.count) ==> qidx(in, j) == old(qidx(in, j)) && qbytes(in, j) == old(qbytes(in, j))
+//@   ensures #one-over [C16] old(in.maxBytes) != 0 ==> old(in.bytes) < in.maxBytes
+//@   ensures #count-bound [C16] in.count <= in.size
+//@   ensures #frame in.size == old(in.size) && in.maxBytes == old(in.maxBytes)
+//@   ensures #bytes [C16] in.bytes == old(in.bytes) + bytes || in.bytes == old(in.bytes) + bytes - 18446744073709551616
+
+//@ func tracker.Inflights.FreeLE [C16]
+//@   requires #wf wf_inflights(in)
+//@   ensures #wf wf_inflights(in)
+//@   ensures #frame in.size == old(in.size) && in.maxBytes == old(in.maxBytes)
+//@   ensures #prefix-freed [C16] in.count <= old(in.count)
+//@             && (forall j int :: 0 <= j && j < old(in.count) - in.count ==> old(qidx(in, j)) <= to)
+//@             && (forall k int :: k == old(in.count) - in.count && in.count > 0 ==> old(qidx(in, k)) > to)
+//@   ensures #queue-shifted [C16] forall j int, k int :: 0 <= j && j < in.count && k == j + (old(in.count) - in.count) ==>
+//@             qidx(in, j) == old(qidx(in, k)) && qbytes(in, j) == old(qbytes(in, k))
+//@   loop 1 invariant #range 0 <= i && i <= in.count && idx == ring(in.start, i, in.size)
+//@   loop 1 invariant #state in.count == old(in.count) && in.start == old(in.start) && in.size == old(in.size) && in.bytes == old(in.bytes) && in.maxBytes == old(in.maxBytes)
+//@   loop 1 invariant #buffer in.buffer == old(in.buffer)
+//@   loop 1 invariant #freed forall j int :: 0 <= j && j < i ==> qidx(in, j) <= to
+//@   loop 1 decreases in.count - i
